@@ -53,6 +53,23 @@ CLAIMED.update({
                 text='best_encoding equals the ISO classification for every byte string of length 0..24 (quick) / 0..96 (thorough), every byte value at '
                      'every position; classifier and value table agree on all 256 bytes.',
                 note='Trusted: Kani/CBMC; strings longer than the bound are outside the claim.', design='4/C09'),
+    'C02': dict(technique=_X_TECH + '; structure() layout with division uninterpreted',
+                text='Kani proves the block-layout, data-codeword, total-codeword, remainder-bit and generator-degree tables equal ISO Table 9 for all 160 '
+                     'cells. The real polynomials::structure is run for all 160 cells with every data codeword symbolic and division stubbed: call b gets '
+                     'exactly ISO block b, data and EC codewords are interleaved in the ISO order, bytes past the total are zero. With the real division, '
+                     'all syndromes of every block normalise to 0 on small cells. The matrix stage shows stream bit k lands on data module k (zig-zag) '
+                     'xor mask and remainder bits are 0 before masking.',
+                note=_X_NOTE + ' Codeword validity for cells without a direct syndrome query is the composition C07 (remainder, all shapes) + layout; '
+                     'the corruption-recovery corollary is RS theory about a decoder not in this crate and is not checked.',
+                design='4/C02'),
+    'C06': dict(technique='symbolic execution of the crate MIR (mirsym) of encode::encode per cell with symbolic payload + SMT (z3 QF_BV); inductive step of push_bits; Kani for cci_bits',
+                text='The real encode() is executed per (version, level, mode, length) cell with every payload byte symbolic (assumed in the mode alphabet) and '
+                     'each data codeword is proved equal to the ISO 7.4 bit stream (mode indicator, count, packed characters, terminator, bit padding, pad '
+                     'codewords) built by an independent encoder on terms; every panic/overflow obligation met is discharged. CompactQR::push_bits is checked '
+                     'as one inductive step from an arbitrary valid buffer state for every alignment 0..24 and width 0..16.',
+                note='Lengths are enumerated (boundary lengths per cell), contents are symbolic. Trusted: MIR executor, Vec/slice/iterator models, '
+                     'term normaliser (validated by concrete runs against the native build), z3 5.1.',
+                design='4/C06'),
     'C15': dict(technique=_X_TECH,
                 text='For a concrete version and symbolic stream/level/mask the type bits of every module equal the ISO region label as a constant, and '
                      'the number of data labels equals 8*total codewords + remainder bits.',
@@ -103,7 +120,7 @@ def main():
         'engines': [
             {'name': 'mirsym+smt', 'path': 'engine/', 'serves_properties': sorted(CLAIMED),
              'kind_free_text': 'own symbolic executor for rustc MIR (-Zunpretty=mir of the current tree) -> hash-consed bit-vector terms -> SMT-LIB2, decided by z3 (5.1 and 4.8.12) and cvc5'},
-            {'name': 'kani', 'path': 'harness/kani/', 'serves_properties': ['C03', 'C04', 'C05', 'C09'],
+            {'name': 'kani', 'path': 'harness/kani/', 'serves_properties': ['C02', 'C03', 'C04', 'C05', 'C06', 'C09'],
              'kind_free_text': 'Kani 0.68 / CBMC proof harnesses compiled inside a scratch overlay of the crate (scalar code only)'},
         ],
         'checks': checks,
